@@ -199,6 +199,8 @@ Proof.
     unfold lt64 in *. apply lxor_lt_64; [exact Ha|]. rewrite <- sec_mulxPow_MULxPOW64 by assumption. apply sec_mulxPow_lt; assumption.
 Qed.
 
+Global Opaque sec_mul MUL64.
+
 (* ------------------------------------------------------------------ the block loop *)
 Definition mblk (msg:bytes) (i:nat) : N := be_to_N (firstn 8 (skipn (8 * i) msg)).
 Definition mstep (P:N) (e m:N) : N := sec_mul (N.lxor e m) P 27.
@@ -215,7 +217,7 @@ Proof.
     replace (N.to_nat (8 * N.of_nat i)) with (8 * i)%nat by lia.
     unfold be_uint. rewrite skipn_length. replace (8 <=? length msg - 8 * i)%nat with true by (symmetry; apply Nat.leb_le; lia).
     replace (N.of_nat i + 1) with (N.of_nat (S i)) by lia.
-    rewrite IH by lia. cbn [seq map fold_left]. f_equal. f_equal.
+    rewrite IH by lia. cbn [seq map fold_left]. reflexivity.
 Qed.
 
 Lemma blocks64_split msg q : (8 * q < length msg)%nat -> (length msg <= 8 * q + 8)%nat ->
